@@ -73,10 +73,18 @@ pub fn run_batch<L: Send + Default>(
                 })
             })
             .collect();
+        let mut died = 0;
         for h in hs {
-            let _ = h.join();
+            if h.join().is_err() {
+                died += 1;
+            }
         }
         done.store(true, Ordering::Relaxed);
+        if died > 0 {
+            // a worker panicked outside the per-run catch (generator or accounting code of the
+            // harness): whatever the batch reports would be based on fewer runs than claimed
+            harness_error(&format!("{died} worker thread(s) of engine {} panicked in harness code; run with --loud to see where", b.engine));
+        }
     });
     locals.into_inner().unwrap()
 }
